@@ -162,7 +162,7 @@ func runLcReader(c lcCase) (*Fail, string) {
 			}
 		}
 		gr := r.GetRead()
-		if gr < lastGR && !closed {
+		if gr < lastGR {
 			return failf("getread-not-monotone", "step %d of %v: GetRead went from %d to %d", i, c.Path, lastGR, gr), ""
 		}
 		if gr > uint64(len(stream)) {
